@@ -370,7 +370,7 @@ def _(I):
 @op('c/circuit-compile-copy')
 def _(I):
     circ = I.circuit(compile_=True, copy=True)
-    return (circ.forward_map, circ.forward(I.Lst()))
+    return (circ.forward_map, circ.backward_map, circ.forward(I.Lst()), circ.backward(I.Lst()), circ.backward(I.S()), list(circ.povm(1)))
 @op('c/circuit-recompile')
 def _(I):
     circ = I.c.identity_circuit(I.N)
